@@ -213,6 +213,24 @@ def origins(fn, start, through_casts=True, through_calls=None, max_steps=4000, w
                         p = op_place(op)
                         work.append((p["l"], _proj_names(p) + proj))
                 elif k == "agg":
+                    # see through tuple / struct construction when a field of the aggregate is what is read
+                    if proj and df.kind == "stmt" and rv.get("agg") in ("tuple", "adt"):
+                        idx = None
+                        if proj[0].isdigit() and rv.get("agg") == "tuple":
+                            idx = int(proj[0])
+                        elif rv.get("agg") == "adt" and proj[0] in rv.get("fields", []):
+                            idx = rv["fields"].index(proj[0])
+                        elif rv.get("agg") == "adt" and proj[0].isdigit() and int(proj[0]) < len(rv["ops"]):
+                            idx = int(proj[0])
+                        if idx is not None and idx < len(rv["ops"]):
+                            op = rv["ops"][idx]
+                            if "c" in op:
+                                o = Origin("const", bb=df.bb, idx=df.idx, const=op["c"], proj=proj[1:])
+                                out[o.key()] = o
+                            else:
+                                p = op_place(op)
+                                work.append((p["l"], _proj_names(p) + proj[1:]))
+                            continue
                     o = Origin("agg", bb=df.bb, idx=df.idx, rv=rv, proj=proj + extra)
                     out[o.key()] = o
                 else:
